@@ -130,8 +130,9 @@ def gen_cases(seed, tier):
     RN = ["na", "nb", "nc", "I", "X", "gain"]
     def rtree(d):
         if d == 0 or rng.random() < 0.3: return ["sp", rng.choice(RN)] if rng.random() < 0.8 else ["num", rng.choice([0.5, 2.0, 3.0])]
-        op = rng.choice(["add", "mul", "sub", "div", "pow", "max"])
+        op = rng.choice(["add", "mul", "div", "pow", "max"])      # no differences: x - x or 1/(x - x) is degenerate (sympy: 0, zoo)
         if op == "pow": return [op, rtree(d - 1), ["num", 2.0]]
+        if op == "div": return [op, rtree(d - 1), ["add", ["num", 1.0], rtree(d - 1)]]
         return [op, rtree(d - 1), rtree(d - 1)]
     for _ in range(25 if tier == "quick" else 300):
         tr = rtree(rng.randint(2, 3)); used = sorted(set(names(tr)))
